@@ -251,7 +251,8 @@ class Ctx:
         if isinstance(obj, datetime.date):
             return {"k": "date", "v": obj.isoformat()}
         return {"k": "obj", "cls": type(obj).__name__, "oid": id(obj),
-                "name": getattr(obj, "_vq_name", None)}
+                "name": getattr(getattr(obj, "__self__", obj), "_vq_name",
+                                None)}
 
     def describe_exc(self, exc):
         return {"k": "E", "cls": type(exc).__name__,
@@ -657,6 +658,11 @@ class ConvFn:
         except KeyError:
             return None
         return qty.amount * fac + off
+
+    def conv(self, qty, to_unit):
+        """the same as a method: every access `obj.conv` is a new bound
+        method object that is equal, not identical, to the previous one"""
+        return self(qty, to_unit)
 
 
 class Elem:
